@@ -12,6 +12,7 @@ package store
 // credit   : credit per ledger cell
 // deposit  : deposit per ledger cell
 // total    : sum of credit over all ledger cells (the quantity C01 is about)
+// logid, logamt, loglen : append-only ghost log of successful balance operations (node id, amount)
 // nonce    : highest nonce accepted per identity
 //
 //@ ghost field reg set[NodeID]
@@ -19,21 +20,28 @@ package store
 //@ ghost field credit map[string]int
 //@ ghost field deposit map[string]int
 //@ ghost field total int
+//@ ghost field logid map[int]NodeID
+//@ ghost field logamt map[int]int
+//@ ghost field loglen int
 //@ ghost field nonce map[string]int
 
 //@ pure spendable(s BalanceStore, id NodeID) int = s.credit[s.cell[id]] + s.deposit[s.cell[id]]
 
 //@ interface store.BalanceStore.GetNodeBalance(nodeID) (result, err)
-//@ ensures [unreg] !this.reg[nodeID] ==> err == ErrUnregisteredNode
+//@ ensures [unreg]   !this.reg[nodeID] ==> err == ErrUnregisteredNode
 //@ ensures [errkind] !typeis(err, balance.LowBalanceError)
-//@ ensures [value] err == nil ==> bigval(result.Credit) == this.credit[this.cell[nodeID]] && bigval(result.Deposit) == this.deposit[this.cell[nodeID]]
+//@ ensures [value]   err == nil ==> bigval(result.Credit) == this.credit[this.cell[nodeID]] && bigval(result.Deposit) == this.deposit[this.cell[nodeID]]
 //@ modifies nothing
 
 //@ interface store.BalanceStore.AddNodeBalance(nodeID, credit) (err)
 //@ requires credit != nil
-//@ ensures [unreg] !old(this.reg[nodeID]) ==> err == ErrUnregisteredNode
-//@ ensures [ok]    err == nil ==> this.credit == upd(old(this.credit), this.cell[nodeID], old(this.credit)[this.cell[nodeID]] + bigval(credit))
-//@                                && this.total == old(this.total) + bigval(credit)
+//@ ensures [unreg]   !old(this.reg[nodeID]) ==> err == ErrUnregisteredNode
 //@ ensures [errkind] !typeis(err, balance.LowBalanceError)
-//@ ensures [fail]  err != nil ==> this.credit == old(this.credit) && this.total == old(this.total)
-//@ modifies this.credit, this.total
+//@ ensures [ok]      err == nil ==> this.credit == upd(old(this.credit), this.cell[nodeID], old(this.credit)[this.cell[nodeID]] + bigval(credit))
+//@                                  && this.total == old(this.total) + bigval(credit)
+//@                                  && this.loglen == old(this.loglen) + 1
+//@                                  && this.logid == upd(old(this.logid), old(this.loglen), nodeID)
+//@                                  && this.logamt == upd(old(this.logamt), old(this.loglen), bigval(credit))
+//@ ensures [fail]    err != nil ==> this.credit == old(this.credit) && this.total == old(this.total)
+//@                                  && this.loglen == old(this.loglen) && this.logid == old(this.logid) && this.logamt == old(this.logamt)
+//@ modifies this.credit, this.total, this.loglen, this.logid, this.logamt
